@@ -78,6 +78,9 @@ class GenericElongationGroove(GrooveBase, ReprMixin):
         if not all(value is None or value >= 0 for value in mandatory_positive_or_zero):
             raise ValueError("Groove arguments have to be non-negative.")
 
+        if not all(value is None or np.isfinite(value) for value in mandatory_positive_or_zero + [pad, pad_angle]):
+            raise ValueError("Groove arguments have to be finite.")
+
         try:
             if usable_width is None:
                 if np.isclose(depth, 0):
